@@ -163,6 +163,9 @@ class TreeConverter(ast.NodeVisitor):
     return self.visit_List(node)    # We don't distinguish tuples and lists
 
   def visit_Call(self, node):
+    if any(v.arg is None for v in node.keywords):
+      # foo(**kwargs) has no [name, value] representation.
+      return self.generic_visit(node)
     args = [self.visit(v) for v in node.args]
     if node.keywords:
       # E.g. foo(a, b=2, c=3) becomes [Call, foo, a, [keywords, [b, 2], [c, 3]]]
